@@ -19,7 +19,8 @@ Choose ==
                        \* (open: the loop region is written ls.. - its end is the end of the audio, i.e. of the slice)
                        ELSE \E le \in (cfg.ls + 1)..(cfg.hi - cfg.lo), open \in BOOLEAN :
                               cfg' = cfg @@ [le |-> IF open THEN cfg.hi - cfg.lo ELSE le, open |-> open /\ TRUE]
-       [] stage = 4 -> \E start \in 0..((IF cfg.ls = -1 THEN cfg.hi - cfg.lo ELSE cfg.le) - 1) : cfg' = cfg @@ [start |-> start]
+       \* (without a loop the start position may also be the end of the audio or beyond it: nothing to play)
+       [] stage = 4 -> \E start \in 0..(IF cfg.ls = -1 THEN cfg.hi - cfg.lo + 1 ELSE cfg.le - 1) : cfg' = cfg @@ [start |-> start]
        [] stage = 5 -> \E rate \in Rates, pk \in {1, 2, 3, 7}, early \in 0..2 : cfg' = cfg @@ [rate |-> rate, pk |-> pk, early |-> early]
 Cmd ==
   /\ stage = 6 /\ ncmd < MaxCmd /\ ncmd' = ncmd + 1
